@@ -162,6 +162,7 @@ def run_property(prop, tier="quick", seed=0, explain=None):
     # rewrites of the same MIR: (norm) private helpers that did not exist when the rules were written
     # (tables/head_functions.json) folded into their callers; (inlined) all private helpers folded in.  Extracting or
     # folding a private helper must not change a verdict.  Only failures are ever rescued; nothing is added.
+    pending_floor = {}
     for view in ("norm", "inlined"):
         failing = [o for o in ctx.obligations if not o.ok and vkey(prop, o) not in known_keys and o.rule != "ENGINE"]
         if not failing:
@@ -203,19 +204,27 @@ def run_property(prop, tier="quick", seed=0, explain=None):
                     alt = second.get((o.cfg, o.rule, o.key))
                     print("  [view %s] %s|%s: %s" % (view, o.rule, o.key[:100], "absent" if alt is None else
                           ("holds" if all(a.ok for a in alt) else "fails: " + json.dumps([a.detail for a in alt if not a.ok], default=str)[:1500])))
-            promoted = set()
             for o in failing:
                 alt = second.get((o.cfg, o.rule, o.key))
                 if alt and all(a.ok for a in alt) and not any(a.noverdict for a in alt):
                     if o.key.startswith("floor:") and o.rule not in SITE_RULES and moved_bad.get((o.cfg, o.rule)):
                         # the instances that bring the count back up exist only in this view (code of a new helper seen
                         # inside its callers) — then what the rule says about them counts too: a floor is not rescued by
-                        # instances that fail their own obligation
-                        for a in moved_bad[(o.cfg, o.rule)]:
-                            if (a.cfg, a.rule, a.key) not in promoted:
-                                promoted.add((a.cfg, a.rule, a.key))
-                                a.what += "  [seen with %s]" % ("newly extracted private helpers folded back" if view == "norm" else "private helpers inlined")
-                                ctx.obligations.append(a)
+                        # instances that fail their own obligation.  The other view may read the same code better, so the
+                        # decision is deferred to the last view: rescued cleanly there, or the failing instances are
+                        # reported (those of the last view that saw any).
+                        # (an instance whose construct — same rule, same source position — was already judged on the
+                        # program as written and holds there is the same instance seen twice, not a new one)
+                        held_at = {(x.rule, x.where) for x in ctx.obligations if x.ok and x.where and x.cfg == o.cfg}
+                        pend = [a for a in moved_bad[(o.cfg, o.rule)] if not (a.where and (a.rule, a.where) in held_at)
+                                and not (a.what or "").startswith("anchor missing")]      # an anchor folded away by the view itself
+                        if pend:
+                            for a in pend:
+                                if "[seen with" not in a.what:
+                                    a.what += "  [seen with %s]" % ("newly extracted private helpers folded back" if view == "norm" else "private helpers inlined")
+                            pending_floor[(o.cfg, o.rule, o.key)] = pend
+                            continue
+                    pending_floor.pop((o.cfg, o.rule, o.key), None)
                     o.ok = True
                     o.what += "  [holds with %s]" % ("newly extracted private helpers folded back" if view == "norm" else "private helpers inlined")
                     rescued += 1
@@ -235,6 +244,17 @@ def run_property(prop, tier="quick", seed=0, explain=None):
             raise
         except Exception as e:
             ctx.note("view %s failed: %s: %s" % (view, type(e).__name__, str(e)[:200]))
+    if pending_floor:
+        seen_p = set()
+        for (cfg_, rule_, key_), pend in pending_floor.items():
+            for o in ctx.obligations:
+                if (o.cfg, o.rule, o.key) == (cfg_, rule_, key_) and not o.ok:
+                    o.ok = True
+                    o.what += "  [count restored by instances seen with private helpers folded into their callers]"
+            for a in pend:
+                if (a.cfg, a.rule, a.key) not in seen_p:
+                    seen_p.add((a.cfg, a.rule, a.key))
+                    ctx.obligations.append(a)
     # Last resort: the tree as a whole is function-for-function identical (after the compiler's own normalisation) to
     # the tree the rules were reviewed on — engine/equiv.py.  Then nothing observable changed and a failing pattern
     # match is a false alarm of ours.  Costs a second compiler pass, so only consulted when something fails.
